@@ -47,14 +47,17 @@ func (d *dir) ReadDir(n int) ([]hackpadfs.DirEntry, error) {
 	if err != nil {
 		return nil, err
 	}
-	if n > 0 && d.offset == len(entries) {
+	if n > 0 && d.offset >= len(entries) {
 		return nil, io.EOF
 	}
-	if n <= 0 || d.offset+n > len(entries) {
-		d.offset = n
-	} else {
-		entries = entries[d.offset : d.offset+n]
-		d.offset += n
+	start := d.offset
+	if start > len(entries) {
+		start = len(entries)
 	}
-	return entries, nil
+	end := len(entries)
+	if n > 0 && start+n < end {
+		end = start + n
+	}
+	d.offset = end
+	return entries[start:end], nil
 }
